@@ -67,6 +67,13 @@ func genC13(tier string, seed int64) (*Family, error) {
 			variant = strings.Replace(variant, "rb := build(n, s, f)", "rb := buildText(newDC(f), rulesTextOpt(n, s, \"r\"))", 1)
 			b.WriteString(variant)
 			fam.Instances = append(fam.Instances, Instance{Func: name + "_rulelevel", Stratum: fmt.Sprintf("layers=%d:rule-level-fault", len(d)), Desc: desc + ", rules failing at rule level", Expect: []string{"executed"}})
+			if k <= 3 {
+				// and with rules that fail while evaluating the expression of a top-level return
+				v2 := strings.Replace(src[at:], "func "+name+"()", "func "+name+"_returnfault()", 1)
+				v2 = strings.Replace(v2, "rb := build(n, s, f)", "rb := buildText(returnFaultDC(n, f), returnFaultText(n, s))", 1)
+				b.WriteString(v2)
+				fam.Instances = append(fam.Instances, Instance{Func: name + "_returnfault", Stratum: fmt.Sprintf("layers=%d:return-fault", len(d)), Desc: desc + ", rules failing in the expression of a return", Expect: []string{"executed"}})
+			}
 		}
 	}
 	b.WriteString(`
